@@ -575,6 +575,86 @@ let handle_packets line kind toks =
           (Printf.sprintf "call#%d:%s (got %s)" idx (clip want) (clip got))
       end
 
+(* Q with a fault in the read script and a client that keeps calling Receive: the blocks completed
+   by the bytes delivered up to and including the first Read that reports an error decode per C06;
+   every other call yields nothing (reception stays ended, nothing is decoded from a wrong offset) *)
+let handle_split_fault line toks =
+  let split_bar' l =
+    let rec go acc = function [] -> (List.rev acc, []) | "|" :: tl -> (List.rev acc, tl) | x :: tl -> go (x :: acc) tl in
+    go [] l
+  in
+  let blocks_t, rest = split_bar' toks in
+  let reads_t, rx_t = split_bar' rest in
+  let stream = String.concat "" blocks_t in
+  (* bytes delivered: data of the reads up to and including the first one with an error / EOF *)
+  let rec delivered_hex acc = function
+    | [] -> acc
+    | t :: tl -> (
+        match t.[0] with
+        | 'd' -> delivered_hex (acc ^ tail_from t 1) tl
+        | 'x' -> acc ^ snd (split_first ':' t)
+        | _ -> acc)
+  in
+  let got = delivered_hex "" reads_t in
+  if not (has_prefix got stream) then failwith ("the reader's log is not a prefix of the blocks: " ^ line);
+  let ncomplete = String.length got / 32 in
+  let zero =
+    let ((f, ie), ef) = s_decode (List.init 16 (fun _ -> Z0)) in
+    Printf.sprintf "0:%s:%s:%s" (frame_str f) (b01 ie) (errframe_str ef)
+  in
+  let expected =
+    List.mapi
+      (fun i _ ->
+        if i < ncomplete then begin
+          let b = data_of_hex (List.nth blocks_t i) in
+          if rx_str (Some (s_decode b)) <> rx_str (receive16 b) then failwith ("model and specification differ (receive): " ^ line);
+          let ((f, ie), ef) = s_decode b in
+          Printf.sprintf "1:%s:%s:%s" (frame_str f) (b01 ie) (errframe_str ef)
+        end
+        else zero)
+      rx_t
+  in
+  let fault = List.exists (fun t -> t.[0] = 'x') reads_t in
+  note_case (Printf.sprintf "QF-%s-%dof%d" (if fault then "data+error" else "error") ncomplete (llen blocks_t)) line;
+  if rx_t <> expected then mismatch line (String.concat " " expected)
+
+(* histories of calls by several transmitters on one conn: the model applies to every call *)
+let handle_history line toks =
+  let calls_t, events_t = split_bar [] toks in
+  let expected =
+    lmap
+      (fun c ->
+        let tx, rest = split_first ':' c in
+        match String.split_on_char ';' rest with
+        | [ fr; k; da; wn; wa ] ->
+            let f = frame_of_str fr in
+            let a = { ans_deadline = opt_error_of_code da; ans_write = opt_error_of_code wa; ans_write_n = z_of_hex wn } in
+            let evs, r = transmit (k <> "0") a f in
+            String.concat ","
+              (lmap
+                 (function
+                   | TxSetDeadline -> "D" ^ k
+                   | TxWrite bs -> "W" ^ hex_of_data bs
+                   | TxIntercept g -> Printf.sprintf "I%s.%s" tx (frame_str g))
+                 evs
+              @ [ (match r with TxOk -> "R-" | TxErr e -> "R" ^ code_of_error e | TxPanic -> "RP") ])
+        | _ -> failwith ("bad call " ^ c))
+      calls_t
+  in
+  let ntx = llen (List.sort_uniq compare (lmap (fun c -> fst (split_first ':' c)) calls_t)) in
+  note_case (Printf.sprintf "Y-%dtx" ntx) line;
+  if events_t <> expected then begin
+    let idx, got, want = first_diff 0 events_t expected in
+    let has_d t = List.exists (fun e -> e <> "" && e.[0] = 'D') (String.split_on_char ',' t) in
+    let clause =
+      if has_d got <> has_d want || List.filter (fun e -> e <> "" && e.[0] = 'D') (String.split_on_char ',' got)
+                                   <> List.filter (fun e -> e <> "" && e.[0] = 'D') (String.split_on_char ',' want)
+      then "every-call-sets-the-deadline-of-its-own-context-before-writing"
+      else "per-call-events"
+    in
+    pfail line clause (Printf.sprintf "call#%d:%s (got %s)" idx want got)
+  end
+
 let handle line =
   match split_ws line with
   | "C" :: toks -> handle_concurrent line toks
@@ -588,6 +668,8 @@ let handle line =
   | "U" :: kind :: toks -> handle_shared line kind toks
   | "G" :: kind :: toks -> handle_packets line kind toks
   | "Q" :: toks -> handle_split line toks
+  | "QF" :: toks -> handle_split_fault line toks
+  | "Y" :: toks -> handle_history line toks
   | "M" :: toks -> handle_multi line toks
   | "N" :: toks -> handle_multi_tx line toks
   | _ -> failwith ("unparsable line: " ^ clip line)
